@@ -403,10 +403,11 @@ func ParseDemonRegisterRequest(AgentID int, Parser *parser.Parser, ExternalIP st
 			logger.Debug(fmt.Sprintf("Parsed DemonID: %x", DemonID))
 
 			if AgentID != DemonID {
-				if AgentID != 0 {
-					logger.Debug("Failed to decrypt agent init request")
-					return nil
-				}
+				/* the id in the (clear) header is the one the caller looked up and is going to
+				 * answer and announce under: a request whose encrypted part names another agent
+				 * is not a registration of either, whatever the header says (0 included) */
+				logger.Debug("Failed to decrypt agent init request")
+				return nil
 			} else {
 				logger.Debug(fmt.Sprintf("AgentID (%x) == DemonID (%x)\n", AgentID, DemonID))
 			}
